@@ -408,3 +408,135 @@ Proof.
     cbn [obind]. rewrite map_id, Hok. reflexivity.
   - subst exts. reflexivity.
 Qed.
+
+(* ------------------------------------------------------------------ *)
+(* soundness of the oracle: an accepted message IS the combinator layout of the parsed fields,
+   i.e. every length prefix in it is the length of what it precedes *)
+
+Ltac Zify.zify_post_hook ::= Z.div_mod_to_equations.
+
+Lemma bytes_ok_app a b : bytes_ok (a ++ b) <-> bytes_ok a /\ bytes_ok b.
+Proof. unfold bytes_ok. apply Forall_app. Qed.
+Lemma bytes_ok_cons x l : bytes_ok (x :: l) <-> x < 256 /\ bytes_ok l.
+Proof. unfold bytes_ok. split; [intros H; inversion H; auto | intros [H1 H2]; constructor; auto]. Qed.
+
+Lemma exact_inv {A} (o : option (A * bytes)) a : exact o = Some a -> o = Some (a, []).
+Proof. destruct o as [[x [|y r]]|]; cbn; intros H; inversion H; reflexivity. Qed.
+
+Lemma read_u8_inv s x r : read_u8 s = Some (x, r) -> s = x :: r.
+Proof. destruct s; cbn; intros H; inversion H; reflexivity. Qed.
+Lemma read_u16_inv s x r : bytes_ok s -> read_u16 s = Some (x, r) -> s = enc_u16 x ++ r /\ x < 65536 /\ bytes_ok r.
+Proof.
+  destruct s as [|a [|b s]]; cbn [read_u16]; intros Hok H; inversion H; subst.
+  apply bytes_ok_cons in Hok. destruct Hok as [Ha Hok]. apply bytes_ok_cons in Hok. destruct Hok as [Hb Hok].
+  unfold enc_u16. cbn [app]. split; [|split; [lia | exact Hok]]. f_equal; [lia|]. f_equal. lia.
+Qed.
+Lemma read_u24_inv s x r : bytes_ok s -> read_u24 s = Some (x, r) -> s = enc_u24 x ++ r /\ x < 16777216 /\ bytes_ok r.
+Proof.
+  destruct s as [|a [|b [|c s]]]; cbn [read_u24]; intros Hok H; inversion H; subst.
+  apply bytes_ok_cons in Hok. destruct Hok as [Ha Hok]. apply bytes_ok_cons in Hok. destruct Hok as [Hb Hok].
+  apply bytes_ok_cons in Hok. destruct Hok as [Hc Hok].
+  unfold enc_u24. cbn [app]. split; [|split; [lia | exact Hok]]. f_equal; [lia|]. f_equal; [lia|]. f_equal. lia.
+Qed.
+Lemma read_bytes_inv n s a r : bytes_ok s -> read_bytes n s = Some (a, r) -> s = a ++ r /\ blen a = n /\ bytes_ok a /\ bytes_ok r.
+Proof.
+  intros Hok H. destruct (read_bytes_blen n s a r H) as [Hl ->]. apply bytes_ok_app in Hok. tauto.
+Qed.
+Lemma read_u8lp_inv s v r : bytes_ok s -> read_u8lp s = Some (v, r) ->
+  s = enc_u8lp v ++ r /\ blen v < 256 /\ bytes_ok v /\ bytes_ok r.
+Proof.
+  intros Hok H. unfold read_u8lp in H. destruct (read_u8 s) as [[n s1]|] eqn:E; [|discriminate].
+  apply read_u8_inv in E. subst s. apply bytes_ok_cons in Hok. destruct Hok as [Hn Hok].
+  destruct (read_bytes_inv _ _ _ _ Hok H) as (-> & Hl & Hv & Hr).
+  unfold enc_u8lp, enc_u8. rewrite Hl, N.mod_small by exact Hn. cbn [app]. split; [reflexivity|]. split; [lia|]. split; assumption.
+Qed.
+Lemma read_u16lp_inv s v r : bytes_ok s -> read_u16lp s = Some (v, r) ->
+  s = enc_u16lp v ++ r /\ blen v < 65536 /\ bytes_ok v /\ bytes_ok r.
+Proof.
+  intros Hok H. unfold read_u16lp in H. destruct (read_u16 s) as [[n s1]|] eqn:E; [|discriminate].
+  destruct (read_u16_inv _ _ _ Hok E) as (-> & Hn & Hok1).
+  destruct (read_bytes_inv _ _ _ _ Hok1 H) as (-> & Hl & Hv & Hr).
+  unfold enc_u16lp. rewrite Hl, <- app_assoc. split; [reflexivity|]. split; [lia|]. split; assumption.
+Qed.
+Lemma read_u24lp_inv s v r : bytes_ok s -> read_u24lp s = Some (v, r) ->
+  s = enc_u24lp v ++ r /\ blen v < 16777216 /\ bytes_ok v /\ bytes_ok r.
+Proof.
+  intros Hok H. unfold read_u24lp in H. destruct (read_u24 s) as [[n s1]|] eqn:E; [|discriminate].
+  destruct (read_u24_inv _ _ _ Hok E) as (-> & Hn & Hok1).
+  destruct (read_bytes_inv _ _ _ _ Hok1 H) as (-> & Hl & Hv & Hr).
+  unfold enc_u24lp. rewrite Hl, <- app_assoc. split; [reflexivity|]. split; [lia|]. split; assumption.
+Qed.
+
+Lemma read_u16s_inv : forall n s l, (length s <= n)%nat -> bytes_ok s -> read_u16s s = Some l ->
+  s = flat_map enc_u16 l /\ all_u16 l = true.
+Proof.
+  induction n as [|n IH]; intros s l Hn Hok H.
+  - destruct s; [|cbn in Hn; lia]. cbn in H. inversion H. split; reflexivity.
+  - destruct s as [|a [|b s]]; cbn [read_u16s] in H; [inversion H; split; reflexivity | discriminate |].
+    destruct (read_u16s s) as [l'|] eqn:E; [|discriminate]. inversion H; subst l.
+    apply bytes_ok_cons in Hok. destruct Hok as [Ha Hok]. apply bytes_ok_cons in Hok. destruct Hok as [Hb Hok].
+    destruct (IH s l') as [-> Hall]; [cbn [length] in Hn; lia | exact Hok | exact E |].
+    cbn [flat_map all_u16 forallb]. fold (all_u16 l'). rewrite Hall. unfold enc_u16. cbn [app].
+    split; [|rewrite andb_true_r; lia]. f_equal; [lia|]. f_equal. lia.
+Qed.
+
+Lemma items_ext_inv : forall fuel s exts, bytes_ok s -> items ext_item fuel s = Some exts ->
+  s = flat_map enc_ext exts /\ Forall (fun x => fst x < 65536 /\ blen (snd x) < 65536) exts.
+Proof.
+  induction fuel as [|fuel IH]; intros s exts Hok H.
+  - destruct s; cbn in H; [|discriminate]. inversion H. split; [reflexivity | constructor].
+  - destruct s as [|s0 s']; [cbn in H; inversion H; split; [reflexivity | constructor]|].
+    cbn [items] in H. destruct (ext_item (s0 :: s')) as [[x r]|] eqn:E; [|discriminate].
+    destruct (items ext_item fuel r) as [l|] eqn:E2; [|discriminate]. inversion H; subst exts.
+    unfold ext_item in E. destruct (read_u16 (s0 :: s')) as [[id s1]|] eqn:E3; [|discriminate]. cbn [obind] in E.
+    destruct (read_u16lp s1) as [[body s2]|] eqn:E4; [|discriminate]. cbn [obind] in E. inversion E; subst x r.
+    destruct (read_u16_inv _ _ _ Hok E3) as (Hs & Hid & Hok1).
+    destruct (read_u16lp_inv _ _ _ Hok1 E4) as (-> & Hlen & _ & Hok2).
+    destruct (IH s2 l Hok2 E2) as (-> & Hall).
+    split; [|constructor; [split; assumption | exact Hall]].
+    rewrite Hs. cbn [flat_map]. unfold enc_ext. cbn [fst snd]. rewrite <- app_assoc. reflexivity.
+Qed.
+
+Lemma strict_parse_sound raw a : bytes_ok raw -> strict_parse raw = Some a -> raw = hello_layout a /\ ast_ok a.
+Proof.
+  intros Hok H. unfold strict_parse in H.
+  destruct (read_u8 raw) as [[t s0]|] eqn:E0; [|discriminate]. cbn [obind] in H.
+  destruct (N.eqb_spec t 1) as [->|]; [|discriminate]. cbn [negb] in H.
+  apply read_u8_inv in E0. subst raw. apply bytes_ok_cons in Hok. destruct Hok as [_ Hok].
+  destruct (exact (read_u24lp s0)) as [body|] eqn:E1; [|discriminate]. cbn [obind] in H.
+  apply exact_inv in E1. destruct (read_u24lp_inv _ _ _ Hok E1) as (Hs0 & Hbl & Hokb & _). rewrite app_nil_r in Hs0. subst s0.
+  destruct (read_u16 body) as [[vers s1]|] eqn:E2; [|discriminate]. cbn [obind] in H.
+  destruct (read_u16_inv _ _ _ Hokb E2) as (-> & Hv & Hok1).
+  destruct (read_bytes 32 s1) as [[random s2]|] eqn:E3; [|discriminate]. cbn [obind] in H.
+  destruct (read_bytes_inv _ _ _ _ Hok1 E3) as (-> & Hr & _ & Hok2).
+  destruct (read_u8lp s2) as [[sid s3]|] eqn:E4; [|discriminate]. cbn [obind] in H.
+  destruct (read_u8lp_inv _ _ _ Hok2 E4) as (-> & _ & _ & Hok3).
+  destruct (N.ltb_spec 32 (blen sid)) as [|Hsid]; [discriminate|].
+  destruct (read_u16lp s3) as [[sb s4]|] eqn:E5; [|discriminate]. cbn [obind] in H.
+  destruct (read_u16lp_inv _ _ _ Hok3 E5) as (-> & Hsbl & Hoksb & Hok4).
+  destruct (nonempty sb) eqn:Hsbne; [|discriminate]. cbn [negb] in H.
+  destruct (read_u16s sb) as [suites|] eqn:E6; [|discriminate]. cbn [obind] in H.
+  destruct (read_u16s_inv _ sb suites (le_n _) Hoksb E6) as (-> & Hsu).
+  destruct (read_u8lp s4) as [[comp s5]|] eqn:E7; [|discriminate]. cbn [obind] in H.
+  destruct (read_u8lp_inv _ _ _ Hok4 E7) as (-> & Hcl & _ & Hok5).
+  destruct (nonempty comp) eqn:Hcne; [|discriminate]. cbn [negb] in H.
+  assert (Hsne : nonempty suites = true) by (destruct suites; [discriminate | reflexivity]).
+  rewrite blen_flat_u16 in Hsbl.
+  destruct (empty s5) eqn:E8.
+  - inversion H; subst a. apply empty_true_iff in E8. subst s5.
+    split; [reflexivity|]. unfold ast_ok. cbn [c_vers c_random c_sid c_suites c_comp c_has_exts c_exts]. tauto.
+  - destruct (exact (read_u16lp s5)) as [eb|] eqn:E9; [|discriminate]. cbn [obind] in H.
+    apply exact_inv in E9. destruct (read_u16lp_inv _ _ _ Hok5 E9) as (Hs5 & Hebl & Hokeb & _). rewrite app_nil_r in Hs5. subst s5.
+    destruct (items ext_item (length eb) eb) as [exts|] eqn:E10; [|discriminate]. cbn [obind] in H.
+    destruct (forallb (fun x => body_okb (fst x) (snd x)) exts) eqn:E11; [|discriminate]. inversion H; subst a.
+    destruct (items_ext_inv _ _ _ Hokeb E10) as (-> & Hall).
+    split; [reflexivity|]. unfold ast_ok. cbn [c_vers c_random c_sid c_suites c_comp c_has_exts c_exts]. tauto.
+Qed.
+
+Lemma valid_chb_spec b : valid_chb b = true <-> valid_ch b.
+Proof.
+  unfold valid_chb, valid_ch. split.
+  - destruct (strict_parse b) as [a|]; [|discriminate]. intros H. apply andb_true_iff in H. destruct H as [H1 H2].
+    exists a. split; [reflexivity|]. split; [apply nodupb_spec; exact H1 | exact H2].
+  - intros (a & -> & Hnd & Hp). apply nodupb_spec in Hnd. rewrite Hnd, Hp. reflexivity.
+Qed.
